@@ -54,6 +54,12 @@ where
                 }
             }
         }
+        Err(p) if is_machine_overflow(&p) && ring == "Z" => {
+            // i64 overflow (checked arithmetic): outside the domain for i64; Z is decided with BigInt
+            OVERFLOW_FALLBACKS.fetch_add(1, std::sync::atomic::Ordering::Relaxed);
+            let hb: num_bigint::BigInt = hname.parse().expect("integer h");
+            check_canon::<num_bigint::BigInt>(run, "Z(BigInt)", name, d, &hb, hname, h_nonzero, reduced);
+        }
         Err(p) => run.fail(&key, &format!("panicked: {p}"), detail()),
     }
 }
@@ -87,15 +93,36 @@ enum C {
     QH,
 }
 
+/// number of computations repeated with arbitrary-precision integers because the i64 computation
+/// stopped on a machine-integer overflow (the library is built with overflow checks; a result that
+/// is not representable in i64 is outside the property's domain, "over Z" is then decided by BigInt)
+static OVERFLOW_FALLBACKS: std::sync::atomic::AtomicU64 = std::sync::atomic::AtomicU64::new(0);
+
+fn is_machine_overflow(msg: &str) -> bool {
+    msg.contains("with overflow")
+}
+
 fn ss(d: &Diagram, c: C, reduced: bool) -> Result<i32, String> {
+    use num_bigint::BigInt;
     let l = to_link(d);
-    catch(|| match c {
+    let first = catch(|| match c {
         C::Z2 => ss_invariant::<i64>(&l, &2, reduced),
         C::Z3 => ss_invariant::<i64>(&l, &3, reduced),
         C::F2H => ss_invariant::<Poly<'H', FF2>>(&l, &Poly::variable(), reduced),
         C::F3H => ss_invariant::<Poly<'H', FF<3>>>(&l, &Poly::variable(), reduced),
         C::QH => ss_invariant::<Poly<'H', Ratio<i64>>>(&l, &Poly::variable(), reduced),
-    })
+    });
+    match first {
+        Err(m) if is_machine_overflow(&m) && matches!(c, C::Z2 | C::Z3 | C::QH) => {
+            OVERFLOW_FALLBACKS.fetch_add(1, std::sync::atomic::Ordering::Relaxed);
+            catch(|| match c {
+                C::Z2 => ss_invariant::<BigInt>(&l, &BigInt::from(2), reduced),
+                C::Z3 => ss_invariant::<BigInt>(&l, &BigInt::from(3), reduced),
+                _ => ss_invariant::<Poly<'H', Ratio<BigInt>>>(&l, &Poly::variable(), reduced),
+            })
+        }
+        r => r,
+    }
 }
 
 fn check_ss(run: &Run, name: &str, d: &Diagram, cs: &[C], moves: &[(String, Diagram)]) {
@@ -237,6 +264,7 @@ fn main() {
         "distinct_nontrivial": run.get("links") + run.get("knots"),
         "rule": "all planar diagrams with <= 3 (thorough 4) crossings + braid closures (+ for the knot part every table knot with <= 8 (thorough 10) crossings and its mirror, twice each): Lee homology rank for every link; for every 1-component diagram: canonical cycles (degree 0, cycles, non-torsion for h != 0; h in {0,1,2,3} over Z, h = H over Q[H], F2[H], h = 1 over F3; reduced and unreduced) and the s-type invariant for c in {2,3} over Z and c = H over F2[H], F3[H], Q[H]: reduced = unreduced, mirror negates, invariant along every PD move edge and every braid move (R2, R3, commutation, conjugation, Markov), and ss(K-) <= ss(K+) <= ss(K-)+2 for every positive crossing of every diagram",
         "knots": run.get("knots"),
+        "i64_overflow_fallbacks_to_bigint": OVERFLOW_FALLBACKS.load(std::sync::atomic::Ordering::Relaxed),
         "move_edges": run.get("move_edges"),
         "crossing_changes": run.get("crossing_changes"),
         "exhaustive": true,
